@@ -24,7 +24,7 @@ def run(chk):
     for scen in opdrivers.SINGLE_SCENARIOS:
         n, ops, ex = opdrivers.baseline_ops(scen, chk.seed)
         if ex != 0:
-            chk.machinery.append('baseline run of %s exits %s' % (scen, ex))
+            chk.notes.append('the uninterrupted run of %s exits %s' % (scen, ex))
         out = tt.pmap(opdrivers.run_crash, [(scen, k, chk.seed) for k in range(1, n + 2)])
         for o in out:
             chk.traces += 1
